@@ -71,6 +71,9 @@ def job(args):
         ('cell', 'cellLocations', (w.mesh,)), ('face', 'faceLocations', (w.mesh,)),
     ]
     for module, fn, a in calls:
+        # a violating builder must not poison the inputs of the next one: rebuild storage that was written
+        if any(e[0] == 'input-mutated' for e in w.ctx.events):
+            return _rest_with_fresh_world(sm, cls, tier, calls, module, fn, obs, units, ob, frozen_in)
         fi = sm.func(module, fn)
         units.add(f"{module}.{fn}")
         construct = f"{module}.{fn}" + ('/u_upwind' if (fn.startswith('convection') and len(a) in (2, 4) and a[-1] is uu) else '')
@@ -152,3 +155,41 @@ def global_rules(sm, rep, tier):
 def finalize(sm, rep, tier, results):
     rep.floor('builder calls analysed for effects (22 x 9)', sum(1 for o in rep.obs if o['rule'] == 'Z1'), 190)
     rep.samples.append(dict(rule='Z1', example="advection._upwind_min_max: ux_min = np.copy(u._xvalue); ux_min[mask] = 0  -> the store hits the copy; with the copy removed the interpreter records ('input-mutated', 'u._xvalue', ...)"))
+
+
+def _rest_with_fresh_world(sm, cls, tier, calls, module, fn, obs, units, ob, frozen_in):
+    """continue the Z1/Z4 loop from (module, fn) on, each call in a world of its own"""
+    start = [i for i, (m_, f_, a_) in enumerate(calls) if (m_, f_) == (module, fn)][0]
+    names = [(m_, f_, len(a_)) for (m_, f_, a_) in calls]
+    for (m_, f_, n_) in names[start:]:
+        w = World(sm, cls)
+        bc = w.boundary_conditions()
+        phi = w.cell_variable('phi', bc)
+        u, uu, D = w.face_variable('u'), w.face_variable('uu'), w.face_variable('D')
+        FL = OpaqueFn('FL')
+        dt = Rat.atom(('dt',))
+        phi_int = Box(atom_array(('phi',), w.N, offset=tuple(ONE for _ in w.N)))
+        phi_int.frozen = 'phi-interior-argument'
+        argmap = {('diffusionTerm', 1): (D,), ('convectionTerm', 1): (u,), ('convectionUpwindTerm', 1): (u,), ('convectionUpwindTerm', 2): (u, uu),
+                  ('convectionTVDupwindRHSTerm', 3): (u, phi, FL), ('convectionTVDupwindRHSTerm', 4): (u, phi, FL, uu), ('divergenceTerm', 1): (D,),
+                  ('gradientTerm', 1): (phi,), ('gradientTermFixedBC', 1): (phi,), ('linearMean', 1): (phi,), ('arithmeticMean', 1): (phi,),
+                  ('geometricMean', 1): (phi,), ('harmonicMean', 1): (phi,), ('upwindMean', 2): (phi, u), ('linearSourceTerm', 1): (phi,),
+                  ('constantSourceTerm', 1): (phi,), ('boundaryConditionsTerm', 1): (bc,), ('cellValuesWithBoundaries', 2): (phi_int, bc),
+                  ('cellLocations', 1): (w.mesh,), ('faceLocations', 1): (w.mesh,)}
+        if f_ == 'transientTerm':
+            a = (phi, dt, Rat.atom(('alpha',)))
+        else:
+            a = argmap[(f_, n_)]
+        fi = sm.func(m_, f_)
+        units.add(f"{m_}.{f_}")
+        construct = f"{m_}.{f_}" + ('/u_upwind' if (f_.startswith('convection') and n_ in (2, 4)) else '')
+        try:
+            res = w.call(m_, f_, *a)
+        except AbstractRaise as e:
+            ob('Z1', construct, False, f"raises {e.exc}: {e.msg}", fi.loc())
+            continue
+        muts = sorted({(str(e[1]), e[2], e[3]) for e in w.ctx.events if e[0] == 'input-mutated'})
+        ob('Z1', construct, not muts, f"stores into input storage: {muts[:3]}" if muts else "no store into any input array", fi.loc())
+        al = frozen_in(res)
+        ob('Z4', construct, not al, f"the returned object holds input storage {al[:3]}" if al else "result holds no input storage", fi.loc())
+    return dict(obs=obs, units=sorted(x for x in units if isinstance(x, str)), samples=[])
